@@ -11,6 +11,7 @@ import ScyllaVerif.Model.MetaUpdate
   request, `T<tag>` merge_topology_update, `U<addr>` / `W<addr>` up / down hint, `K` take.
 * `stress <n> <mode> <seed>` — two OS threads; the schedule is not observable, the line only says that the
   concatenation of everything received was `0..n` and that `None` came last (what `Props.C19` proves for every schedule).
+* `race <reps> <n> <seed>` — `reps` such rounds with a tiny `n` (the drop follows the last merge at once).
 -/
 namespace ScyllaVerif.Drive.C19
 open ScyllaVerif.Util
@@ -147,6 +148,10 @@ def run (case _impl : String) : String :=
     match n.toNat? with
     | some n => s!"received=0..{n} in-order none-last"
     | none => "bad-case"
+  | ["race", reps, n, _seed] =>
+    match reps.toNat?, n.toNat? with
+    | some reps, some n => s!"rounds={reps} each=0..{n} in-order none-last"
+    | _, _ => "bad-case"
   | _ => "bad-case"
 
 end ScyllaVerif.Drive.C19
